@@ -197,6 +197,14 @@ func (c *Conn) vHdr(ev string, h header) {
 	VerifSink(VerifEvent{Conn: c.v.id, G: verifGID(), Ev: ev, A: int64(h.opcode), B: flags, D: h.payloadLength, E: int64(h.maskKey)})
 }
 
+// vCtl reports the payload of a ping or pong frame that has been written (at most 125 bytes).
+func (c *Conn) vCtl(ev string, op opcode, p []byte) {
+	if vOff(c.v.id) || op != opPing && op != opPong {
+		return
+	}
+	VerifSink(VerifEvent{Conn: c.v.id, G: verifGID(), Ev: ev, S: string(p), A: int64(op)})
+}
+
 func (m *mu) vName() string {
 	c := m.c
 	switch {
